@@ -52,14 +52,16 @@ def rule_layering(repo: Repo, rid: str = "C06.layering") -> RuleResult:
     r = RuleResult(rid, "only PDDLType (and the code that builds / prints the declared tree) walks .parent links; everything else asks is_sub_type",
                    "every place that checks or ranges over types uses the one closure")
     n_funcs = 0
+    unit = L.private_helpers_of(repo, LAYER_ALLOWED)
     for f in repo.all_funcs():
         short = f.qn.split("::", 1)[1]
-        if f.cls == "PDDLType" or short in LAYER_ALLOWED:
+        if f.cls == "PDDLType" or short in LAYER_ALLOWED or f.qn in unit:
             continue
         n_funcs += 1
         te = repo.types(f)
         for n in ast.walk(f.node):
-            if isinstance(n, ast.Attribute) and n.attr == "parent" and te.typeof(n.value) == ("cls", "PDDLType"):
+            # a walk READS the link; assigning `.parent` builds the tree
+            if isinstance(n, ast.Attribute) and n.attr == "parent" and isinstance(n.ctx, ast.Load) and te.typeof(n.value) == ("cls", "PDDLType"):
                 r.site(L.site(f, n, "parent access"))
                 r.fail(Finding(rid, f, "parent-walk-outside-type", f"{unparse(n)} walks the type tree by hand instead of asking is_sub_type: a second, private "
                                f"notion of conformance (easily off by one at the root or at the type itself)", node=n))
@@ -179,7 +181,7 @@ def rule_direction(repo: Repo, rid: str = "C06.direction") -> RuleResult:
 
 
 def _parse_types(repo: Repo) -> FuncInfo:
-    return repo.func("DomainParser.parse_types")
+    return L.fn(repo, "DomainParser.parse_types")
 
 
 def _returned_names(f: FuncInfo) -> set:
@@ -187,7 +189,7 @@ def _returned_names(f: FuncInfo) -> set:
     for ret in L.func_returns(f):
         if isinstance(ret.value, ast.Name):
             out.add(ret.value.id)
-    return out
+    return L.aliases(f, out)
 
 
 def _ctor_calls(f: FuncInfo, cls: str) -> List[ast.Call]:
@@ -411,8 +413,15 @@ def rule_walk(repo: Repo) -> RuleResult:
         raise AnalysisError(f"is_sub_type_aux: guard idiom not recognised (atoms seen: {sorted(G.atoms_seen)})")
     g = G.g
 
-    def classify(ret: ast.Return) -> str:
+    def classify(ret: ast.Return, valuation, seen) -> str:
         v = ret.value
+        if v is not None and not (isinstance(v, ast.Constant) and isinstance(v.value, bool)):
+            sv = G.value(valuation, v, seen)
+            if isinstance(sv, bool):
+                return str(sv)
+            if sv is None:
+                return f"other:{unparse(v)}"
+            v = sv
         if isinstance(v, ast.Constant) and isinstance(v.value, bool):
             return str(v.value)
         if isinstance(v, ast.Call) and callee_name(v) == f.name and len(v.args) == 2:
@@ -427,7 +436,7 @@ def rule_walk(repo: Repo) -> RuleResult:
     for (same, root), want in expect.items():
         r.site(f"{f.qn} [same={same}, root={root}]")
         seen = G.reach({"same": same, "root": root})
-        got = {classify(g.stmt[n]) for n in seen if g.kind[n] == "return"}
+        got = {classify(g.stmt[n], {"same": same, "root": root}, seen) for n in seen if g.kind[n] == "return"}
         falls_off = any(m == g.exit and g.kind[n] != "return" for n in seen for m, _ in g.succ[n])
         if falls_off:
             got.add("None(fall-through)")
